@@ -109,6 +109,29 @@ theorem served_within (side : Side) (ops : List Op) (id : Nat) (k : Nat) (hbs : 
   intro s hlen hmem hk hlive
   exact GrpcProofs.Loopy.served_within (wf_reachable side ops) id k hbs hlen hmem hk hlive
 
+/-- **Idle means nothing can be sent.** `run()` stops calling `processData` (and blocks for the next control item) only when
+`processData` reports isEmpty, and it reports that only when `sendQuota = 0` or the active list is empty — by `no_lost_wakeup` the
+latter means that no established stream has both queued data and stream quota. (The T2 component `s_loopyrun` checks this idle
+condition on the real `run()` goroutine.) -/
+theorem idle_means_nothing_sendable (s : St) (hb : Nat) (r : Res) (hr : r = processData s hb) (hidle : r.ret = .tick true) :
+    s.sendQuota = 0 ∨ s.active = [] := by
+  subst hr
+  by_cases hq : s.sendQuota = 0
+  · exact Or.inl hq
+  · right
+    cases hact : s.active with
+    | nil => rfl
+    | cons id rest =>
+      exfalso
+      unfold processData at hidle
+      simp only [hq, if_false, hact] at hidle
+      split at hidle
+      · simp at hidle
+      · simp at hidle
+      · split at hidle
+        · simp at hidle
+        · exact writeChunk_ret_ne _ _ _ _ _ _ _ _ _ _ hidle
+
 /-! ### non-vacuity -/
 
 /-- a lost wake-up is rejected: stream 1 has data and stream quota 5 but is not on the active list -/
